@@ -636,4 +636,22 @@ structure SharedAppend where
   what : String
   deriving DecidableEq, Repr, Inhabited
 
+/-- a goroutine started by the library's own code: position, enclosing function, kind -/
+structure GoSpawn where
+  pos  : String
+  fn   : String
+  kind : String
+  deriving DecidableEq, Repr, Inhabited
+
+/-- an in-place mutator (sort, reverse, compact, clear, copy-into, element assignment, append with
+    possible spare capacity) applied to a slice reached — through fields, type assertions, getter
+    calls, local aliases — from a non-receiver parameter that is an object callers share (pointer
+    to a repository struct, interface value) and that the function did not allocate itself -/
+structure ArgMutation where
+  pos  : String
+  fn   : String
+  what : String
+  path : String
+  deriving DecidableEq, Repr, Inhabited
+
 end Conc
